@@ -411,7 +411,7 @@ pub fn property() -> Property {
         id: "C03",
         title: "To-be-signed bytes are exactly RFC 8152 Sig_structure",
         rule: "(context, body protected [decoded from styled wire bytes | built empty | built non-empty], signer protected, external AAD, payload [embedded | detached | absent]) tuples with lengths on the CBOR length-class lattice \
-               (0, 1, 23/24, 255/256, 65535/65536, 70000) and random; COSE_Sign with 1-4 signers, every index; reached through tbs_data, tbs_detached_data, sig_structure_data (3 contexts x signer present/absent) and the closures of \
+               (0, 1, 23/24, 255/256, 65535/65536, 70000) and random, one string in a thousand of 2^20 / 2^24-1 / 2^24 / 2^24+5 / 2^25 bytes, one AAD in ten shaped like a Sig_/MAC_/Enc_structure naming a context and the same protected bytes; messages with one planted fault that the decoder nevertheless accepts (slots read off the wire by the harness' reader); COSE_Sign with 1-4 signers, every index; reached through tbs_data, tbs_detached_data, sig_structure_data (3 contexts x signer present/absent) and the closures of \
                create_signature / add_created_signature / verify_signature and their detached / try_ forms; byte equality with an independent deterministic encoder; perturbed tuples must give different bytes; documented panics must occur; \
                non-trivial = non-empty protected header, a boundary length, detached form, or a multi-signer / general-function case; distinct by tuple",
         assumptions: &["reference: own deterministic encoder (harness/src/cbor.rs) of the RFC 8152 §4.4 array with the three context strings written in the harness", "a built non-empty protected header contributes the bstr the message's own encoding emits, verified to wrap exactly the header's map"],
